@@ -205,7 +205,8 @@ def handle : List String → String
   | ["jrange", col, sup, lk, lt, lv, uk, ut, uv, vals] =>
     let pcol : Option JsonRange.ColT := if col == "i" then some .i64 else if col == "u" then some .u64 else none
     let pbv (t v : String) : Option JsonRange.BV :=
-      if t == "i" then v.toInt?.map .i else if t == "u" then v.toNat?.map .u else none
+      if t == "i" then v.toInt?.map .i else if t == "u" then v.toNat?.map .u
+      else if t == "f" then v.toInt?.map .f else none
     let pb (k t v : String) : Option JsonRange.B :=
       if k == "u" then some .unb
       else if k == "i" then (pbv t v).map .incl
